@@ -12,7 +12,7 @@ full = "--full" in sys.argv
 if "--patch" in sys.argv:
     patch = sys.argv[sys.argv.index("--patch") + 1]
 env = dict(os.environ, GOFLAGS="-mod=mod", GOPROXY="off", GOSUMDB="off", GOTOOLCHAIN="local")
-wt = "/tmp/confirm-%s-%s" % (pid, m)
+wt = "/var/tmp/verif-confirm-%s-%s" % (pid, m)
 def sh(cmd, cwd=wt, timeout=1800):
     p = subprocess.run(cmd, cwd=cwd, shell=True, env=env, stdout=subprocess.PIPE, stderr=subprocess.STDOUT, text=True, timeout=timeout)
     return p.returncode, p.stdout
